@@ -12,7 +12,7 @@ def o_drop(case, line):
     d = simcase.parse_drop(line)
     if d is None:
         return None
-    n, after = d
+    n, after, leak = d
     models = case["models"]
     def added(i):
         cur = i
@@ -46,6 +46,29 @@ def tie(rep, tier, rng, model_ok):
             e = o_drop(c, line)
             if e:
                 bad.append((th, c, e, line))
+    # leaks: live heap bytes after the drop vs before the bench.  A first non-zero delta can be a one-off
+    # (thread-local / lazy initialisation in that runner process), so a suspicious case is re-run three
+    # times in one fresh process and counts only if the last two runs still leave bytes behind.
+    suspects = []
+    for th, outs in res.items():
+        for c, line in zip(benches, outs):
+            d = simcase.parse_drop(line)
+            if d and d[2] is not None and d[2] > 0:
+                suspects.append((th, c))
+    leaks = []
+    for th, c in suspects[:60]:
+        line = simcase.render(c, bugs=simcheck.current_bugs(), threads=th)
+        outs3 = vlib.run_lines(vlib.SIMH, ["bench"], [line, line, line], shards=1)
+        ds = [simcase.parse_drop(o) for o in outs3]
+        if all(d and d[2] is not None and d[2] > 0 for d in ds[1:]):
+            leaks.append((th, c, [d[2] for d in ds], outs3[2]))
+    rep.cov["parts"]["drop-after-bench"]["leak_suspects"] = len(suspects)
+    rep.cov["parts"]["drop-after-bench"]["leaks_confirmed"] = len(leaks)
+    if leaks:
+        th, c, ds, line = leaks[0]
+        rep.violation("drop-leak", {"kind": "property-violated-on-implementation", "threads": th,
+                                    "why": "dropping the simulation leaves %s bytes allocated (three consecutive runs of the same bench in one process)" % ds,
+                                    "case": simcase.render(c, bugs=simcheck.current_bugs(), threads=th), "observed": line[:1500], "confirmed": len(leaks)})
     rep.cov["parts"]["drop-after-bench"]["drop_oracle_failures"] = len(bad)
     if bad:
         th, c, e, line = bad[0]
